@@ -210,6 +210,15 @@ def ob_select_proj(tomo, sysname, m, flag, first, second):
                 got = quiet(algo.func_proj, v.copy())
                 exp = expected(qt.generate_empty_estimation_obj_with_setting_info(), flags, v, K)
             out.append(Eq(f"configuration {step + 1} (eq={flags[0]}, ineq={flags[1]}): func_proj(v) == documented projection", got, exp, 1e-9))
+            if flags == (True, False) and not flag and tomo in ("qst", "povmt"):
+                # independent of the library: the equality-only projection lands ON the constraint set (tr rho = 1 / sum_x E_x = I)
+                n = d * d
+                g = list(flat(got))
+                if tomo == "qst":
+                    out.append(Eq("equality-only projection: identity coefficient == 1/sqrt(d)", np.array(g[:1], dtype=object), np.array([1 / np.sqrt(d)]), 1e-9))
+                else:
+                    tot = [sum((g[k * n + j] for k in range(1, m)), g[j]) for j in range(n)]
+                    out.append(Eq("equality-only projection: the elements sum to the identity", np.array(tot, dtype=object), np.array([np.sqrt(d)] + [0.0] * (n - 1)), 1e-9))
         return out
     return FnOb(reals("v", nv, -5.0, 5.0), run, max_paths=100, expect_nonlinear=True,
                 stubs=["constraint projections uninterpreted (Peq, Pineq); physical projection unrolled to max_iteration_proj_physical = 2"])
@@ -291,22 +300,10 @@ def ob_start_point(tomo, sysname, m, flag, algo_name):
         algo.set_constraint_from_standard_qt_and_option(qt, opt)
         opt_before = dict(vars(opt))
         import c11
-        import quara.minimization_algorithm.projected_gradient_descent_backtracking as BB
-        orig = BB.ProjectedGradientDescentBacktracking._is_doing_for_alpha
-        cnt = {"n": 0}
-
-        def bounded(self, x_prev, y_prev, alpha, gamma_, lf):
-            r = orig(self, x_prev, y_prev, alpha, gamma_, lf)
-            if r:
-                cnt["n"] += 1
-                if cnt["n"] > 2:
-                    raise core.Outside("alpha halving deeper than the explored bound")
-            return r
-        BB.ProjectedGradientDescentBacktracking._is_doing_for_alpha = bounded
-        try:
-            res = quiet(algo.optimize, loss, None, opt, on_iteration_history=True)
-        finally:
-            BB.ProjectedGradientDescentBacktracking._is_doing_for_alpha = orig
+        loss.max_points = line_search_limit(1, 2)
+        res = quiet(algo.optimize, loss, None, opt, on_iteration_history=True)
+        if algo_name == "backtracking":
+            outside_if_deeper(res.alpha, 2)
         origin = qt.generate_empty_estimation_obj_with_setting_info().generate_origin_obj()
         st = c03.ref_stacked_from_var(TOMO_TYPE[tomo], d, m, flag, origin.to_var())
         out = [Eq("x[0] == origin object's variables", res.x[0], origin.to_var(), 0.0),
@@ -338,6 +335,8 @@ def obligations(tier):
                 out += specs("C10.select_proj", [{"tomo": tomo, "sysname": s, "m": m, "flag": flag, "first": list(first), "second": None}], ob_select_proj, 3)
             for first, second in tiers(tier, [(FLAGS[0], FLAGS[3]), (FLAGS[3], FLAGS[1])], [(a, b) for a in FLAGS for b in FLAGS if a != b]):
                 out += specs("C10.select_proj.reuse", [{"tomo": tomo, "sysname": s, "m": m, "flag": flag, "first": list(first), "second": list(second)}], ob_select_proj, 4)
+    # number of outcomes different from the dimension (the constants sqrt(d)/m and 1/sqrt(d) differ)
+    out += specs("C10.select_proj", [{"tomo": "povmt", "sysname": "Q1", "m": 3, "flag": False, "first": [True, False], "second": None}], ob_select_proj, 3)
     for tomo, s, m in [("qst", "Q1", 0), ("povmt", "Q1", 2), ("qpt", "Q1", 0)]:
         for algo_name in ("backtracking", "momentum", "fista"):
             out += specs("C10.start_point", [{"tomo": tomo, "sysname": s, "m": m, "flag": f, "algo_name": algo_name} for f in (True, False)], ob_start_point, 1)
